@@ -5,7 +5,10 @@
 From Coq Require Import List Bool Arith PrimFloat Reals.
 From V.base Require Import FloatBits.
 From V.model Require Import Iform.
-From V.proofs Require Import IformProofs.
+From V.proofs Require Import IformProofs GenTieProofs.
+From V.base Require Import Num.
+From V.gen Require Import Contours.
+From Coq Require Import QArith Qreals.
 Import ListNotations.
 
 (* ---------------------------------------------------------------- any value type *)
@@ -171,6 +174,15 @@ Proof.
         (conj w_wf (conj (fun xs => eq_refl) (wrandn_ok 7))))))))).
 Qed.
 
+(* calculate_alpha as REGENERATED from virocon/contours.py on every run (tools/py2v.py) is the hand-written model function, over
+   the reals and in binary64: the hand model is pinned to the current source by a proof, not only by the correspondence run *)
+Theorem C01_calculate_alpha_generated : forall sd rp : R,
+  ct_calculate_alpha ROps sd rp = calculate_alpha R (Q2R (1461 # 4)) (IZR 24) Rmult Rdiv sd rp.
+Proof. exact calculate_alpha_generated_R. Qed.
+Theorem C01_calculate_alpha_generated_binary64 : forall sd rp : PrimFloat.float,
+  ct_calculate_alpha (FOps nil nil) sd rp = calculate_alphaF sd rp.
+Proof. exact calculate_alpha_generated_float. Qed.
+
 Print Assumptions C01_rosen_chain.
 Print Assumptions C01_contour_preimage.
 Print Assumptions C01_iform_distance.
@@ -191,3 +203,5 @@ Print Assumptions C01_iform_full.
 Print Assumptions C01_isorm_full.
 Print Assumptions C01_calculate_alpha.
 Print Assumptions C01_float_entry_points.
+Print Assumptions C01_calculate_alpha_generated.
+Print Assumptions C01_calculate_alpha_generated_binary64.
